@@ -218,6 +218,7 @@ class C18(Prop):
             calls = [[draw(st.sampled_from(KINDS)), draw(st.sampled_from(vs)), draw(text)] for _ in range(n)]
             return {'calls': calls, 'fresh_grammars': draw(st.integers(0, 5)) == 0, 'pristine': draw(st.integers(0, 2)) == 0,
                     'stress': tier == 'thorough' and draw(st.integers(0, 3)) == 0,
+                    'cold': draw(st.sampled_from([None] * 8 + ['sequential', 'threaded'])),
                     'schedule': draw(st.lists(st.integers(1, 120), min_size=8, max_size=60))}
         return case()
 
@@ -297,6 +298,25 @@ class C18(Prop):
             for i, (a, b) in enumerate(zip(outs, r1)):
                 if a != b:
                     fail = ('preemptive-threads-result-differs', 'thread %d %s(%s): %s vs sequential %s'
+                            % (i, calls[i][0], calls[i][1], short(a, 150), short(b, 150)))
+                    break
+        # (5) cold start: the same calls as the very first parso actions of a fresh interpreter (sequentially, or in
+        # threads under the scheduler) - first-use memoisation must be atomic and independent of the order of first uses
+        if fail is None and case.get('cold'):
+            classes.append('cold-start:' + case['cold'])
+            try:
+                r = subprocess.run([sys.executable, '-m', 'vf.coldrun'], cwd=VERIF, capture_output=True, timeout=300,
+                                   input=json.dumps({'calls': calls, 'schedule': case['schedule'],
+                                                     'threaded': case['cold'] == 'threaded'}).encode('utf-8'),
+                                   env=dict(os.environ, VERIF_REPO=REPO, PYTHONHASHSEED='0'))
+                cold = json.loads(r.stdout.decode('utf-8')) if r.returncode == 0 and r.stdout else None
+            except (subprocess.TimeoutExpired, ValueError):
+                cold = None
+            if cold is None:
+                raise RuntimeError('cold-start runner failed: %s' % r.stderr.decode('utf-8', 'replace')[-500:])
+            for i, (a, b) in enumerate(zip(cold, r1)):
+                if norm(a) != b:
+                    fail = ('cold-start-result-differs:' + case['cold'], 'call %d %s(%s): cold %s vs warm %s'
                             % (i, calls[i][0], calls[i][1], short(a, 150), short(b, 150)))
                     break
         nt = sched is not None and sched.contended_switches >= 3
